@@ -29,7 +29,7 @@ var crashOff int64
 
 func TestMain(m *testing.M) {
 	core.InitMurex()
-	core.HangBudget = 45 * time.Second
+	core.HangBudget = 120 * time.Second
 	// crash.Handler writes its "Murex has crashed" report to os.Stderr (the
 	// variable), not to the program's stderr stream: capture it in a file so
 	// check() can see it. Go runtime fatal errors still go to fd 2 (shard log).
@@ -78,7 +78,7 @@ var allow = []string{
 	"2darray", "=", "a", "addheading", "alias", "alter", "and", "append", "args", "base64", "bexists", "break",
 	"cast", "catch", "continue", "count", "cpuarch", "cpucount", "datetime", "err", "escape", "esccli", "eschtml", "escurl",
 	"exitnum", "f", "false", "fexec", "fid-list", "foreach", "format", "function", "g", "get-type", "global", "gz",
-	"if", "is-null", "ja", "jsplit", "key-code", "left", "let", "list.case", "map", "match", "method", "mjoin", "msort", "mtac",
+	"if", "is-null", "ja", "jsplit", "left", "let", "list.case", "map", "match", "method", "mjoin", "msort", "mtac",
 	"murex-parser", "null", "or", "os", "out", "pipe", "prefix", "prepend", "pretty", "printf", "private", "regexp", "return",
 	"right", "round", "runmode", "runtime", "rx", "set", "struct-keys", "suffix", "summary", "switch", "ta", "tabulate", "test",
 	"tout", "true", "try", "tryerr", "trypipe", "trypipeerr", "type", "unsafe", "unset", "version", "which", "~>", "history",
@@ -178,7 +178,7 @@ func gen(t *rapid.T) Case {
 
 var crashMarkers = []string{"panic caught", "Murex has crashed", "runtime error:", "fatal error:", "goroutine 1 [", "invalid memory address", "index out of range", "slice bounds out of range", "nil map"}
 
-var usesDelayed = regexp.MustCompile(`pipe`)
+var usesDelayed = regexp.MustCompile(`\bpipe\b`)
 
 func check(c Case) *core.Violation {
 	src := c.Source()
